@@ -1,6 +1,6 @@
 from __future__ import annotations
 
-from dataclasses import dataclass
+from dataclasses import dataclass, field
 from typing import List, Tuple
 
 from hypercorn.typing import ConnectionState
@@ -38,6 +38,10 @@ class Trailers(Event):
 @dataclass(frozen=True)
 class Data(Event):
     data: bytes
+    # A reply the connection's reader makes itself (pong, close) must
+    # not wait for room in a send buffer that only the reader can
+    # make room in.
+    wait: bool = field(default=True, compare=False)
 
 
 @dataclass(frozen=True)
